@@ -14,12 +14,14 @@ import (
 
 // Case is one executable case and at the same time the replay artefact.
 type Case struct {
-	Kind    string  `json:"kind"` // cond | number | date | bool | simplify | regroup | risky
+	Kind    string  `json:"kind"` // cond | number | date | bool | simplify | regroup | multi | risky
 	Env     EnvSpec `json:"env"`
 	Contact Profile `json:"contact"`
 	// cond, risky: the query text
 	Query string `json:"query,omitempty"`
-	// number, date: property as written and query literal as written (the six operators are derived)
+	// number, date: property as written and query literal as written (the six operators are derived);
+	// multi: property as written and the query value (written quoted; all operators and all orders of the
+	// contact's URNs are derived)
 	Prop  string `json:"prop,omitempty"`
 	Value string `json:"value,omitempty"`
 	// date: the calendar day (in the environment's zone) the query literal denotes, known from how the
@@ -1014,6 +1016,8 @@ func check(cs *Case, o *obs) []Problem {
 		return checkSimplify(cs, o)
 	case "regroup":
 		return checkRegroup(cs, o)
+	case "multi":
+		return checkMulti(cs, o)
 	}
 	return []Problem{{Key: "harness:unknown-case-kind:" + cs.Kind, What: cs.Kind}}
 }
